@@ -11,6 +11,30 @@ PID = "C02"
 class Gen2(M.Gen):
     """programs over the constructs of the property, with early exits at every syntactic position"""
 
+    def lazy_name(self):
+        """&& / || in one of their spellings: the symbol, the word (a synonym with a table entry of its own), the word in other letters"""
+        r = self.rng
+        n = r.choice(["&&", "||"])
+        k = r.random()
+        if k < 0.5:
+            return n
+        w = SYNONYM[n]
+        return w if k < 0.85 else r.choice(letter_cases(w)[1:])
+
+    def boolean(self, depth):
+        """the parent's conditions, with the lazy operators in every spelling"""
+        r = self.rng
+        k = r.random()
+        if depth <= 0 or k < 0.3:
+            return B(r.random() < 0.5)
+        if k < 0.7:
+            return Bin(r.choice(["<", ">", "<=", ">=", "=="]), self.num(depth - 1), self.num(depth - 1))
+        if k < 0.8:
+            return Un("!", self.boolean(depth - 1))
+        if k < 0.9:
+            return Bin(self.lazy_name(), self.boolean(depth - 1), self.boolean(depth - 1))
+        return Bin(self.lazy_name(), self.boolean(depth - 1), Code(self.mark(), E(self.boolean(depth - 1))))
+
     def early_exit(self, d, nest=2):
         r = self.rng
         k = r.randint(0, 4)
@@ -146,6 +170,207 @@ class Gen2(M.Gen):
             r.randint = saved
 
 
+# ---------------------------------------------------------------- spellings of operator names
+# An operator of the property can be written in more than one way: `&&` / `and`, `||` / `or`, `!` / `not` are documented synonyms (each
+# spelling has its OWN entry in the operator table: ops_logic.cpp:210-217, ops_math.cpp:494-495), and every name is matched without
+# regard to letter case (sqf_parser.cpp to_assembly lower-cases it; the table is keyed by the lower-cased name). What a program does
+# must not depend on the spelling.
+def letter_cases(w):
+    """every way of writing the word in upper / lower case letters, the lower-case one first"""
+    out = [""]
+    for ch in w:
+        out = [o + c for o in out for c in (ch.lower(), ch.upper())]
+    return out
+
+
+LAZY_AND = ["&&"] + letter_cases("and")
+LAZY_OR = ["||"] + letter_cases("or")
+NOTS = ["!"] + letter_cases("not")
+SYNONYM = {"&&": "and", "and": "&&", "||": "or", "or": "||", "!": "not", "not": "!"}
+
+
+def style_doc(a, n): return n
+def style_lower(a, n): return n.lower()
+def style_upper(a, n): return n.upper()
+def style_cap(a, n): return n[:1].upper() + n[1:].lower()
+def style_alt(a, n): return "".join(c.upper() if i % 2 else c.lower() for i, c in enumerate(n))
+def style_alt2(a, n): return "".join(c.lower() if i % 2 else c.upper() for i, c in enumerate(n))
+def style_syn(a, n): return SYNONYM.get(n.lower(), n) if a in (1, 2) else n
+def style_syn_upper(a, n): return style_syn(a, n).upper()
+
+
+STYLES = [("as documented", style_doc), ("lower case", style_lower), ("UPPER CASE", style_upper), ("Capitalised", style_cap),
+          ("aLtErNaTiNg", style_alt), ("AlTeRnAtInG", style_alt2), ("synonym", style_syn), ("SYNONYM in upper case", style_syn_upper)]
+
+
+def respell(prog, f):
+    """the program (token format of vmcommon) with every operator name n of arity a written as f(a, n); variables, strings and the
+    structure stay as they are"""
+    toks, out, pos = prog.split(), [], [0]
+
+    def nx():
+        t = toks[pos[0]]
+        pos[0] += 1
+        return t
+
+    def expr():
+        t = nx()
+        out.append(t)
+        if t in ("N", "S", "V"):
+            out.append(nx())
+        elif t in ("T", "F"):
+            pass
+        elif t in ("A", "C"):
+            n = int(nx())
+            out.append(str(n))
+            for _ in range(n):
+                (expr if t == "A" else stmt)()
+        elif t in ("0", "1", "2"):
+            out.append(f(int(t), nx()))
+            for _ in range(int(t)):
+                expr()
+        else:
+            raise ValueError("bad expression token " + t)
+
+    def stmt():
+        t = nx()
+        out.append(t)
+        if t in ("=", "L"):
+            out.append(nx())
+        elif t != "E":
+            raise ValueError("bad statement token " + t)
+        expr()
+
+    n = int(nx())
+    out.append(str(n))
+    for _ in range(n):
+        stmt()
+    if pos[0] != len(toks):
+        raise ValueError("tokens left over")
+    return " ".join(out)
+
+
+def for_reference(prog):
+    """what the reference semantics is asked: it knows `&&` / `and` / `||` / `or` in any letter case, and `!` but not its synonym `not`
+    (RefSem.v eval_unary) - a `not` is put to it as `!` (the property reads the two as one operator; this part of the oracle is the
+    synonym rule, not the model)"""
+    if " not " not in prog.lower():
+        return prog
+    return respell(prog, lambda a, n: "!" if a == 1 and n.lower() == "not" else n)
+
+
+def lazy_spelling_cases():
+    """BOOL op BOOL and BOOL op CODE in every spelling of the operator (symbol, word, letter cases): each truth value on the left, on the
+    right a boolean / a block that reports that it runs and yields true, false, a comparison, a number, nothing; as a value, and as the
+    condition of every construct of the property that takes one; nested in the right block and chained on the left, mixed with the
+    other spellings. The right block must run exactly when the left side does not decide."""
+    out = []
+    mk = [100]
+
+    def m(what=None):
+        mk[0] += 1
+        return E(Un("diag_log", what if what is not None else N(mk[0])))
+
+    arr6 = Arr(*[N(i) for i in range(1, 7)])
+    for sp in LAZY_AND + LAZY_OR:
+        # -- as a value
+        for left in (True, False):
+            rights = [("BOOL true", B(True)), ("BOOL false", B(False)),
+                      ("{mark; true}", Code(m(), E(B(True)))), ("{mark; false}", Code(m(), E(B(False)))),
+                      ("{true}", Code(E(B(True)))), ("{false}", Code(E(B(False)))),
+                      ("{mark; comparison}", Code(m(Var("_a")), E(Bin("<", Var("_a"), N(2))))),
+                      ("{mark; number}", Code(m(), E(N(5)))), ("{}", Code()), ("{mark; nested block value}", Code(m(), E(Un("call", Code(m(), E(B(left)))))))]
+            for nm, r in rights:
+                e = Bin(sp, B(left), r)
+                out.append(Prog(Loc("_a", N(1)), Asg("_r", e), m(Arr(S("r"), Var("_r"))), E(e)))
+        # -- as the condition of each construct: the elements / rounds make the left side both true and false
+        for eager in (False, True):
+            def c(l, r, tag):
+                return Bin(sp, l, r if eager else Code(m(Arr(S(tag), Var("_x"))), E(r)))
+            lt, gt, eq = (lambda v, k: Bin("<", Var(v), N(k))), (lambda v, k: Bin(">", Var(v), N(k))), (lambda v, k: Bin("==", Var(v), N(k)))
+            out.append(Prog(E(Bin("count", Code(m(Var("_x")), E(c(lt("_x", 2), gt("_x", 4), "R"))), arr6))))
+            out.append(Prog(E(Bin("select", arr6, Code(E(c(eq("_x", 1), eq("_x", 6), "R")))))))
+            out.append(Prog(E(Bin("findIf", arr6, Code(E(c(gt("_x", 10), eq("_x", 3), "R")))))))
+            out.append(Prog(E(Bin("findIf", arr6, Code(E(c(lt("_x", 10), eq("_x", 3), "R")))))))
+            out.append(Prog(E(Bin("apply", arr6, Code(E(c(lt("_x", 3), gt("_x", 4), "R")))))))
+            out.append(Prog(E(Bin("forEach", Code(E(Bin("then", Un("if", c(gt("_x", 1), lt("_x", 4), "R")), Code(m(Arr(Var("_x"), Var("_forEachIndex"))))))), arr6))))
+            cw = Bin(sp, lt("_i", 3), Bin("<", Var("_n"), N(5)) if eager else Code(m(Arr(S("R"), Var("_n"))), E(Bin("<", Var("_n"), N(5)))))
+            out.append(Prog(Loc("_i", N(0)), Loc("_n", N(0)),
+                            E(Bin("do", Un("while", Code(E(cw))), Code(Asg("_i", Bin("+", Var("_i"), N(1))), Asg("_n", Bin("+", Var("_n"), N(1))), m(Arr(Var("_i"), Var("_n")))))),
+                            E(Arr(Var("_i"), Var("_n")))))
+            for left in (True, False):
+                for right in (True, False):
+                    cc = Bin(sp, B(left), B(right) if eager else Code(m(), E(B(right))))
+                    out.append(Prog(E(Bin("then", Un("if", cc), Bin("else", Code(m(S("then")), E(N(1))), Code(m(S("else")), E(N(2))))))))
+                    out.append(Prog(E(Un("call", Code(E(Bin("exitWith", Un("if", cc), Code(m(S("exit")), E(N(7))))), m(S("stay")), E(N(8))))), m(S("behind"))))
+                    out.append(Prog(E(Bin("catch", Un("try", Code(E(Bin("throw", Un("if", cc), N(3))), m(S("no throw")), E(N(4)))), Code(m(Var("_exception")), E(N(5)))))))
+        # -- nested in the right block, and chained on the left, with each of the plain spellings of both operators
+        for sp2 in ("&&", "and", "||", "or"):
+            for l1 in (True, False):
+                for l2 in (True, False):
+                    for b in (True, False):
+                        out.append(Prog(E(Bin(sp, B(l1), Code(m(), E(Bin(sp2, B(l2), Code(m(), E(B(b))))))))))
+                        out.append(Prog(E(Bin(sp2, Bin(sp, B(l1), Code(m(), E(B(l2)))), Code(m(), E(B(b)))))))
+    # -- under a negation, in each spelling of the negation
+    for neg in NOTS:
+        for sp in ("&&", "and", "||", "or", "AND", "OR"):
+            for left in (True, False):
+                for right in (True, False):
+                    out.append(Prog(E(Un(neg, Bin(sp, B(left), Code(m(), E(Un(neg, B(right)))))))))
+    return out
+
+
+def keyword_templates():
+    """one small program per construct of the property, each using the construct's keywords (as the documentation writes them)"""
+    mk = [200]
+
+    def m(what=None):
+        mk[0] += 1
+        return E(Un("diag_log", what if what is not None else N(mk[0])))
+
+    arr = Arr(N(3), N(1), N(4), N(1), N(5))
+    x_gt = lambda k: Bin(">", Var("_x"), N(k))
+    t = []
+    t.append(Prog(Loc("_a", N(2)), E(Bin("then", Un("if", Bin("<", Var("_a"), N(3))), Bin("else", Code(m(), E(N(1))), Code(m(), E(N(2))))))))
+    t.append(Prog(Loc("_a", N(2)), E(Bin("then", Un("if", Bin(">", Var("_a"), N(3))), Code(m(), E(N(1))))), m(), E(Bin("then", Un("if", B(True)), Code(m(), E(N(6)))))))
+    t.append(Prog(E(Un("call", Code(m(), E(Bin("exitWith", Un("if", B(True)), Code(m(), E(N(7))))), m(), E(N(8))))), m()))
+    t.append(Prog(Loc("_a", N(0)), E(Bin("do", Un("while", Code(E(Bin("<", Var("_a"), N(3))))), Code(Asg("_a", Bin("+", Var("_a"), N(1))), m(Var("_a")))))))
+    t.append(Prog(E(Bin("do", Bin("to", Bin("from", Un("for", S("_i")), N(1)), N(4)), Code(m(Var("_i")))))))
+    t.append(Prog(E(Bin("do", Bin("step", Bin("to", Bin("from", Un("for", S("_i")), N(5)), N(0)), N(-2)), Code(m(Var("_i")))))))
+    t.append(Prog(E(Bin("forEach", Code(m(Arr(Var("_x"), Var("_forEachIndex")))), arr))))
+    t.append(Prog(E(Bin("count", Code(m(Var("_x")), E(x_gt(2))), arr)), E(Un("count", arr))))
+    t.append(Prog(E(Bin("select", arr, Code(m(Var("_x")), E(x_gt(2)))))))
+    t.append(Prog(E(Bin("apply", arr, Code(m(Var("_x")), E(Bin("*", Var("_x"), N(2))))))))
+    t.append(Prog(E(Bin("findIf", arr, Code(m(Var("_x")), E(x_gt(3)))))))
+    for v in (1, 2, 3, 9):
+        t.append(Prog(E(Bin("do", Un("switch", N(v)), Code(E(Bin(":", Un("case", N(1)), Code(m(), E(N(10))))), E(Un("case", N(2))),
+                                                             E(Bin(":", Un("case", N(3)), Code(m(), E(N(30))))), E(Un("default", Code(m(), E(N(99))))))))))
+    t.append(Prog(E(Bin("call", N(4), Code(m(Var("_this")), E(Bin("+", Var("_this"), N(1)))))), E(Un("call", Code(m(), E(N(2)))))))
+    t.append(Prog(E(Bin("catch", Un("try", Code(m(), E(Un("throw", N(5))), m())), Code(m(Var("_exception")), E(Var("_exception")))))))
+    t.append(Prog(E(Bin("catch", Un("try", Code(m(), E(Bin("throw", Un("if", B(True)), N(6))), m())), Code(m(Var("_exception")), E(N(1)))))))
+    t.append(Prog(E(Un("call", Code(E(Un("scopeName", S("s1"))), m(), E(Un("call", Code(m(), E(Bin("breakOut", N(9), S("s1"))), m()))), m()))), m()))
+    t.append(Prog(E(Un("call", Code(E(Un("scopeName", S("s1"))), m(), E(Un("call", Code(m(), E(Un("breakOut", S("s1"))), m()))), m()))), m()))
+    for l in (True, False):
+        t.append(Prog(E(Bin("&&", B(l), Code(m(), E(B(True))))), m(), E(Bin("||", B(l), Code(m(), E(B(False)))))))
+        t.append(Prog(E(Bin("&&", Un("!", B(l)), Code(m(), E(Un("!", B(l)))))), m(), E(Bin("||", Un("!", B(l)), Code(m(), E(Un("!", B(l))))))))
+    inner = Bin("&&", x_gt(3), Code(m(Var("_x")), E(Un("!", x_gt(4)))))
+    t.append(Prog(E(Bin("select", arr, Code(E(Bin("||", Bin("<", Var("_x"), N(2)), Code(m(Var("_x")), E(inner)))))))))
+    return t
+
+
+def keyword_spelling_cases():
+    """every template in every style of writing its operator names"""
+    out = []
+    for t in keyword_templates():
+        seen = set()
+        for _, f in STYLES:
+            p = respell(t, f)
+            if p not in seen:
+                seen.add(p)
+                out.append(p)
+    return out
+
+
 def limit_cases(rng, thorough):
     """while loops in unscheduled code that reach the iteration limit L (configuration max_loop_iterations_in_unscheduled, 10000 unless
     the host sets it): a round is one evaluation of the condition followed by one run of the body; the loop is left after the L-th
@@ -259,13 +484,24 @@ def main(replay=None):
         if os.path.isdir(cdir):
             for fn in sorted(os.listdir(cdir)):
                 cases.append(("corpus:" + fn, json.load(open(os.path.join(cdir, fn)))["prog"]))
+        # the operators in every spelling (synonyms, letter cases): small programs first, their replays are the shortest
+        for p in lazy_spelling_cases():
+            cases.append(("lazy-spelling", p))
+        for p in keyword_spelling_cases():
+            cases.append(("keyword-spelling", p))
+        styles = [f for _, f in STYLES if f not in (style_syn, style_syn_upper)]
         for _ in range(40000 if thorough else 4000):
-            cases.append(("random", g.program(depth=rng.choice([2, 3, 3, 4]), length=rng.choice([2, 3, 5]))))
+            p = g.program(depth=rng.choice([2, 3, 3, 4]), length=rng.choice([2, 3, 5]))
+            if rng.random() < 0.15:
+                # the whole program with its operator names in other letters, each name in a style of its own
+                cases.append(("random-respelled", respell(p, lambda a, n: rng.choice(styles)(a, n))))
+            else:
+                cases.append(("random", p))
     progs = [c[1] for c in cases]
     res = M.run_programs(himpl, drv, progs)
-    rc, rout, err = V.run_lines_parallel([rdrv], ["4000\t" + p for p in progs], timeout=3000)
+    rc, rout, err = V.run_lines_parallel([rdrv], ["4000\t" + for_reference(p) for p in progs], timeout=3000)
     kinds, distinct, samples, nref_unsup, ndis, nvm_unsup = {}, set(), [], 0, 0, 0
-    constructs = {}
+    constructs, nnot = {}, 0
     for (kind, prog), d, ro in zip(cases, res, rout):
         kinds[kind.split(":")[0]] = kinds.get(kind.split(":")[0], 0) + 1
         rf = ro.split("\t")
@@ -285,9 +521,10 @@ def main(replay=None):
         if rcls in ("UNSUPPORTED", "FUEL"):
             nref_unsup += 1          # outside the reference fragment (e.g. breakOut to a scope that does not exist)
         else:
-            for w in ("foreach", "for ", "while", "count", "apply", "select", "findif", "switch", "exitwith", "breakout", "try", "call", "&&", "||", "then"):
+            for w in ("foreach", "for ", "while", "count", "apply", "select", "findif", "switch", "exitwith", "breakout", "try", "call", "&&", "||", " and ", " or ",
+                      "(not ", "then"):
                 if w in d["text"].lower():
-                    constructs[w.strip()] = constructs.get(w.strip(), 0) + 1
+                    constructs[w.strip(" (")] = constructs.get(w.strip(" ("), 0) + 1
             distinct.add(d["text"])
             if len(samples) < 4:
                 samples.append({"text": d["text"][:400], "impl": d["i_final"][:300], "ref": robs[:300]})
@@ -304,6 +541,9 @@ def main(replay=None):
                 run.violation("control structures do not follow the reference semantics: " + bad, rep)
                 continue
         # ---- correspondence: VM model vs implementation
+        if "(not " in d["text"].lower():
+            nnot += 1                # the VM model has `!` but not its synonym `not`: judged against the reference semantics only (above)
+            continue
         if "UNSUPPORTED" in d["m_trace"] or "UNSUPPORTED" in d["m_final"]:
             nvm_unsup += 1
             continue
@@ -372,11 +612,24 @@ def main(replay=None):
                        "the extracted reference semantics RefSem.run_ref; compared: outcome class, the sequence of diag_log markers, the value of the "
                        "program; non-trivial = inside the reference fragment, distinct by program text; plus while loops against the iteration limit of "
                        "unscheduled code (limits 1..8 and the default 10000, the condition turning false before / at / after the limit, plain, without body, "
-                       "in call, in forEach, twice in a row): rounds and evaluations of the condition counted, value = what the last body yielded")
+                       "in call, in forEach, twice in a row): rounds and evaluations of the condition counted, value = what the last body yielded"
+                       "; plus the spellings of the operators (each synonym is a table entry of its own, names are matched without regard to letter "
+                       "case): lazy-spelling = BOOL op BOOL / BOOL op CODE for op in && / || / every letter case of `and` / `or` (14 spellings), each truth "
+                       "value on the left, on the right a boolean or a block that reports its run and yields true / false / a comparison / a number / "
+                       "nothing, as a value and as the condition of if-then-else, exitWith, throw, while, count, select, findIf, apply, forEach; nested "
+                       "in the right block and chained on the left with && / and / || / or; under ! and every letter case of `not`; keyword-spelling = "
+                       "one program per construct of the property with all its operator names as documented / lower / UPPER / Capitalised / "
+                       "alternating / synonyms; random-respelled = 15 % of the random programs with every operator name in a letter case of its own, "
+                       "and the conditions of all random programs write the lazy operators as symbol or word. Oracle of these families: the extracted "
+                       "reference semantics RefSem.run_ref on the same program (it lower-cases names and has `and` / `or`; a `not` is put to it as `!` - "
+                       "for that synonym the oracle is the rule 'a synonym means the same', the VM model does not have it and those programs are not "
+                       "compared with the VM model)")
     run.cov["input_distribution"] = kinds
     run.cov["constructs_exercised"] = constructs
     run.cov["outside_reference_fragment"] = nref_unsup
     run.cov["unsupported_by_vm_model"] = nvm_unsup
+    run.cov["spelled_not_judged_by_reference_only"] = nnot
+    run.cov["operator_spellings"] = {"&&": LAZY_AND, "||": LAZY_OR, "!": NOTS, "styles": [n for n, _ in STYLES]}
     run.cov["disagreements_checked"] = ndis
     run.cov["samples"] = samples
     run.cov["trusted_base"] = ["Coq 8.16.1 kernel", "ExtrOcamlBasic extraction + ocaml/ref_driver.ml, ocaml/vm_driver.ml", "harness/h_vm.cpp",
